@@ -351,7 +351,8 @@ def r6(rep, prog):
 def r7(rep, prog):
     R = "C10-R7"
     fid = MDI + "garbage_collect"
-    rule_precede(rep, prog, R, fid, family(prog, D + "sync_directory"), {"tantivy::directory::managed_directory::save_managed_paths"},
+    from .c01 import sync_events
+    rule_precede(rep, prog, R, fid, sync_events(prog), {"tantivy::directory::managed_directory::save_managed_paths"},
                  "sync_directory", "save_managed_paths")
     rule_result_checked(rep, prog, R, fid, {"tantivy::directory::managed_directory::save_managed_paths"}, "save_managed_paths")
     body = prog.body(fid)
